@@ -48,6 +48,8 @@ func (c *Ctx) regionInit(name string, gen int) string {
 			sort_ = "Bool"
 		} else if name == "$opos" {
 			sort_ = "Int"
+		} else if name == "$buflen" {
+			sort_ = "(Array Int Int)"
 		} else {
 			panic(fmt.Sprintf("internal: unknown region %s", name))
 		}
@@ -83,6 +85,9 @@ func (c *Ctx) regionSort(name string) string {
 	if name == "$opos" {
 		return "Int"
 	}
+	if name == "$buflen" {
+		return "(Array Int Int)"
+	}
 	return c.regions[name]
 }
 
@@ -117,6 +122,8 @@ func (c *Ctx) havocAll(s *State) {
 		c.havocTpos(s, tp)
 		s.cells["$rfault"] = Val{S: rf}
 		c.havocRfault(s)
+		// unknown code may have written into any bytes.Buffer
+		s.cells["$buflen"] = Val{S: c.freshSort("buflen", "(Array Int Int)")}
 	}()
 	for k := range s.cells {
 		if isRegionKey(k) {
@@ -139,6 +146,49 @@ func (c *Ctx) havocOpos(s *State) {
 	n := c.freshSort("opos", "Int")
 	c.assume(and(sx("<=", "0", old), sx("<=", old, n), sx("<=", n, tposMax)))
 	s.cells["$opos"] = Val{S: n}
+}
+
+// obsConst: the observed writer.  The ghost output tape (otape, opos) records
+// exactly the bytes accepted by the one writer whose interface value equals
+// this constant; it is arbitrary, so whatever is proved holds for every
+// choice of the observed writer.
+func (c *Ctx) obsConst() string {
+	if !c.funDecls["const:gobs"] {
+		c.funDecls["const:gobs"] = true
+		c.declare("gobs", "Iface")
+	}
+	return "gobs"
+}
+
+// leafWriter: the dynamic type of the interface value is a standard-library
+// writer that keeps what it is given and forwards it to no other writer.
+func (c *Ctx) leafWriter(v string) string {
+	var alts []string
+	for _, t := range c.prog.ifaceTypes {
+		switch ifaceCtorName(t) {
+		case "I_Pbytes_Buffer", "I_Pstrings_Builder":
+			alts = append(alts, fmt.Sprintf("((_ is %s) %s)", ifaceCtorName(t), v))
+		}
+	}
+	if len(alts) == 0 {
+		return "false"
+	}
+	return or(alts...)
+}
+
+// isBytesBuffer / bufRef: the interface value holds a *bytes.Buffer, and its reference.
+func (c *Ctx) isBytesBuffer(v string) (string, string) {
+	for _, t := range c.prog.ifaceTypes {
+		if n := ifaceCtorName(t); n == "I_Pbytes_Buffer" {
+			return fmt.Sprintf("((_ is %s) %s)", n, v), fmt.Sprintf("(pv_%s %s)", n[2:], v)
+		}
+	}
+	return "false", "0"
+}
+
+// havocBuflen: the ghost lengths of all bytes.Buffers after code that may have written.
+func (c *Ctx) havocBuflen(s *State) {
+	s.cells["$buflen"] = Val{S: c.freshSort("buflen", "(Array Int Int)")}
 }
 
 // havocWfault: the ghost write-fault flag after code that may have written
